@@ -9,7 +9,8 @@
 //   list_slices.cc    HttpHdrRange: ParsedCount, constructor, ParseCreate, parseInit, destructor, begin/end x4, merge,
 //                     getCanonizedSpecs, canonize(int64_t), isComplex, willBeComplex, firstOffset, lowestOffset,
 //                     offsetLimitExceeded
-//   (native replay only) native_deps.inc   the real HttpHdrRangeSpec::parseInit, httpHeaderParseOffset, strListGetItem
+//   (native replay only) native_spec_parse.inc / native_offset.inc / native_strlist.inc: the real
+//                     HttpHdrRangeSpec::parseInit, httpHeaderParseOffset (HttpHeaderTools.cc), strListGetItem (StrList.cc)
 #include "stubs.h"
 #include "minmax.h"
 #include "Range.h"
@@ -139,7 +140,9 @@ int cv_next_item(const char *base, size_t len, char del, const char **item, int 
 bool httpHeaderParseOffset(const char *start, int64_t *offPtr, char **endPtr = nullptr);
 #define xisspace(x) isspace(static_cast<unsigned char>(x))
 #include <cctype>
-#include "native_deps.inc"
+#include "native_spec_parse.inc"
+#include "native_offset.inc"
+#include "native_strlist.inc"
 #else
 /* HttpHdrRangeSpec::parseInit: its contract is VERIFIED in hdrrange/parse; here it is replaced by that contract's
  * shape: the item is rejected, or accepted with a well-formed (offset, length) -- which of the two is fixed per item
